@@ -39,7 +39,8 @@ M = [
  ("C18-no-clear", ["C18"], "src/PS/ElectricField.cpp", "    std::fill_n(_bp_padded,_nmax,static_cast<integral_t>(0));\n    for (uint32_t b=0; b<PhaseSpace::nb; b++) {", "    for (uint32_t b=0; b<PhaseSpace::nb; b++) {"),
  ("C19-records-dropped", ["C19"], "src/SM/DynamicRFKickMap.cpp", "    _past_modulation.emplace_back(std::move(_next_modulation.front()));", "    if (_past_modulation.size()<3) _past_modulation.emplace_back(std::move(_next_modulation.front()));"),
  ("C19-pop-before-use", ["C19"], "src/SM/DynamicRFKickMap.cpp", "void vfps::DynamicRFKickMap::apply() {\n    _calcKick();", "void vfps::DynamicRFKickMap::apply() {\n    if (_next_modulation.size() > 1) { _past_modulation.emplace_back(_next_modulation.front()); _next_modulation.pop(); }\n    _calcKick();"),
- ("C15-clamp-upper", ["C15"], "src/SM/FokkerPlanckMap.cpp", "        pos.y = std::max(static_cast<meshaxis_t>(1),\n        std::min(pos.y+offset,static_cast<meshaxis_t>(_ysize-1)));", "        pos.y = std::max(static_cast<meshaxis_t>(1),\n        std::min(pos.y+offset,static_cast<meshaxis_t>(_ysize)));"),
+ ("C15-stochastic-no-upper-clamp", ["C15"], "src/SM/FokkerPlanckMap.cpp", "                        , std::min(pos.y, static_cast<meshaxis_t>(_ysize-1)));\n        break;", "                        , pos.y);\n        break;"),
+ ("C15-applyto-sign", ["C15"], "src/SM/KickMap.cpp", "            pos.y -= (1-xf)*_offset[xi]+xf*_offset[xi+1];", "            pos.y -= (1-xf)*_offset[xi]+xf*_offset[xi];"),
  ("C10-position-axis", ["C10"], "src/IO/HDF5File.cpp", "_positionAxis.dataset.write(ps->getAxis(0)->data(),_positionAxis.datatype);", "_positionAxis.dataset.write(ps->getAxis(1)->data(),_positionAxis.datatype);"),
  ("C10-time-axis", ["C10"], "src/main.cpp", "                hdf_file->append(*grid_t1,\n                        static_cast<double>(simulationstep)/steps, at);", "                hdf_file->append(*grid_t1,\n                        static_cast<double>(simulationstep+1)/steps, at);"),
  ("C11-default-record", ["C11"], "src/IO/ProgramOptions.cpp", "&_startdiststep)->default_value(-1),", "&_startdiststep)->default_value(0),"),
